@@ -1,14 +1,304 @@
-import Model.FixedText
+import Lemmas.FixedTextLiteral
+import Generated.Facts
+/-! # C04 — fixed-point values print canonically and parse back to the identical value
+
+Property theorems only.  The executable model is `Model/FixedText.lean` (namespace `FixedText`): `toStr` = `String()`,
+`toStrSign`, `comma`, `commaSign`, `fromStr64` / `fromStr128` = `FromString`, `unmarshal64/128` = `UnmarshalText` /
+`UnmarshalJSON`, `unquote`, `commaNum`, `as64/128`, `checkedAs64/128`; the driver `drv_c04` runs exactly these
+definitions against the Go code for the sixteen configurations of `Facts.fixedConfigs`.  Strings are byte lists
+(45 = '-', 43 = '+', 46 = '.', 44 = ',', 48 = '0', 34 = '"'); a raw value is an `Int`, `fits64` / `fits128` its range.
+`p` is the number of places and the multiplier is `10^p` — `configs_pow10` shows this is what the source's table says. -/
 namespace C04
 open FixedText
 
-/-- placeholder while the lemma files are being built -/
+/-- the configuration table read from the source: multiplier = 10^places, 1 ≤ places ≤ 16 -/
+theorem configs_pow10 : ∀ c ∈ Facts.fixedConfigs, c.2 = 10 ^ c.1 ∧ 1 ≤ c.1 ∧ c.1 ≤ 16 := by
+  decide
+
+/-! ## String() -/
+
+/-- `String()` is sign ++ integer digits ++ optional '.' fraction digits, '-' exactly when the value is negative
+    (also for −0.x, whose integer part is 0) -/
+theorem toString_shape (p : Nat) (raw : Int) :
+    toStr (10^p) raw = (if raw < 0 then [45] else []) ++ natStr (raw.tdiv (10^p)).natAbs ++
+      (if raw.tmod (10^p) = 0 then [] else 46 :: fracStr p (raw.tmod (10^p)).natAbs) :=
+  toStr_decomp p raw
+
+/-- **exact**: the digits shown denote exactly `|raw| / 10^p`: read as one number `N` with `k` fraction digits,
+    `N · 10^(p−k) = |raw|` -/
+theorem toString_exact (p : Nat) (raw : Int) :
+    let ip := natStr (raw.tdiv (10^p)).natAbs
+    let fp := if raw.tmod (10^p) = 0 then [] else fracStr p (raw.tmod (10^p)).natAbs
+    parseDigits (ip ++ fp) * 10^(p - fp.length) = raw.natAbs :=
+  toStr_value p raw
+
+/-- **canonical**: the integer digits are non-empty, have no leading zero (a lone "0" excepted); the fraction digits
+    are at most `p`, have no trailing zero and are absent exactly when the fraction is zero -/
+theorem toString_canonical (p : Nat) (raw : Int) :
+    let ip := natStr (raw.tdiv (10^p)).natAbs
+    let fp := if raw.tmod (10^p) = 0 then [] else fracStr p (raw.tmod (10^p)).natAbs
+    ip ≠ [] ∧ (∀ c ∈ ip, isDigit c = true) ∧ (ip.head? = some 48 → ip = [48]) ∧
+    (∀ c ∈ fp, isDigit c = true) ∧ fp.length ≤ p ∧ fp.getLast? ≠ some 48 ∧ (fp = [] ↔ raw.tmod (10^p) = 0) :=
+  toStr_canonical p raw
+
+/-- f128 computes the fraction by subtraction instead of `%`: same text -/
+theorem toString_f128_same (mult raw : Int) : toStr128 mult raw = toStr mult raw := toStr128_eq mult raw
+
+/-! ## the round trip -/
+
+/-- **f64: FromString(String()) is the identity for every 64-bit raw value — `Min` included, whose text only
+    re-parses through int64 wrap-around — and every number of places up to 18** -/
+theorem fromString_toString64 (p : Nat) (hp : p ≤ 18) (raw : Int) (hr : fits64 raw = true) :
+    fromStr64 p (10^p) (toStr (10^p) raw) = .ok raw :=
+  fromStr64_toStr p hp raw hr
+
+/-- **f128: FromString(String()) is the identity for every 128-bit raw value and every number of places** -/
+theorem fromString_toString128 (p : Nat) (raw : Int) (hr : fits128 raw = true) :
+    fromStr128 p (10^p) (toStr (10^p) raw) = .ok raw :=
+  fromStr128_toStr p raw hr
+
+/-- `UnmarshalText` / `UnmarshalJSON` of the bare rendering (Unquote leaves it alone: it starts with '-' or a digit) -/
+theorem unmarshal_toString64 (p : Nat) (hp : p ≤ 18) (raw : Int) (hr : fits64 raw = true) :
+    unmarshal64 p (10^p) (toStr (10^p) raw) = .ok raw := by
+  unfold unmarshal64
+  rw [unquote_bare, fromStr64_toStr p hp raw hr]
+  left
+  rw [toStr_decomp]
+  obtain ⟨c, t, e, h1, h2, _⟩ := natStr_head (raw.tdiv (10^p)).natAbs
+  rw [e]
+  split <;> simp <;> omega
+
+/-- … and of the quoted rendering `"…"` (JSON string, quoted YAML scalar) -/
+theorem unmarshal_quoted64 (p : Nat) (hp : p ≤ 18) (raw : Int) (hr : fits64 raw = true) :
+    unmarshal64 p (10^p) (34 :: (toStr (10^p) raw ++ [34])) = .ok raw := by
+  unfold unmarshal64
+  rw [unquote_quoted, fromStr64_toStr p hp raw hr]
+
+theorem unmarshal_toString128 (p : Nat) (raw : Int) (hr : fits128 raw = true) :
+    unmarshal128 p (10^p) (toStr (10^p) raw) = .ok raw := by
+  unfold unmarshal128
+  rw [unquote_bare, fromStr128_toStr p raw hr]
+  left
+  rw [toStr_decomp]
+  obtain ⟨c, t, e, h1, h2, _⟩ := natStr_head (raw.tdiv (10^p)).natAbs
+  rw [e]
+  split <;> simp <;> omega
+
+theorem unmarshal_quoted128 (p : Nat) (raw : Int) (hr : fits128 raw = true) :
+    unmarshal128 p (10^p) (34 :: (toStr (10^p) raw ++ [34])) = .ok raw := by
+  unfold unmarshal128
+  rw [unquote_quoted, fromStr128_toStr p raw hr]
+
+/-! ## Comma and the *WithSign forms -/
+
+/-- `Comma()` only adds separators: removing the commas gives `String()` back -/
+theorem comma_only_adds_commas (p : Nat) (raw : Int) : stripCommas (comma (10^p) raw) = toStr (10^p) raw :=
+  comma_strip p raw
+
+/-- the separators stand in front of groups of exactly three digits: `Comma()` is sign ++ `commaBody` of the integer
+    digits ++ the unchanged fraction, and `commaBody` is a first group of `len % 3` digits followed by `groups` -/
+theorem comma_shape (p : Nat) (raw : Int) :
+    comma (10^p) raw = (if raw < 0 then [45] else []) ++ commaBody (natStr (raw.tdiv (10^p)).natAbs) ++
+      (if raw.tmod (10^p) = 0 then [] else 46 :: fracStr p (raw.tmod (10^p)).natAbs) := by
+  obtain ⟨hne, hip, _, hfpd, _, _, hfp0⟩ := toStr_canonical p raw
+  unfold comma
+  rw [toStr_decomp]
+  generalize hfp : (if raw.tmod (10^p) = 0 then [] else fracStr p (raw.tmod (10^p)).natAbs) = fp at *
+  have htl : (if raw.tmod (10^p) = 0 then [] else 46 :: fracStr p (raw.tmod (10^p)).natAbs) =
+      (if fp = [] then [] else 46 :: fp) := by
+    by_cases h0 : raw.tmod (10^p) = 0
+    · rw [if_pos h0, if_pos (hfp0.mpr h0)]
+    · rw [if_neg h0, if_neg (fun h => h0 (hfp0.mp h)), ← hfp, if_neg h0]
+  rw [htl]
+  have hfp46 : ∀ c ∈ fp, c ≠ 46 := fun c hc => by have := isDigit_bounds c (hfpd c hc); omega
+  have h := commaNum_eval (decide (raw < 0)) _ fp hip hne hfp46
+  simp only [decide_eq_true_eq] at h
+  exact h
+
+/-- every group written by the grouping loop is a comma (except possibly the first) and exactly three bytes -/
+theorem groups_three (nc : Bool) (a b c : Nat) (t : Str) :
+    groups nc (a :: b :: c :: t) = (if nc then [44] else []) ++ [a, b, c] ++ groups true t := by
+  simp [groups]
+
+/-- parsing `Comma()` returns the value -/
+theorem fromString_comma64 (p : Nat) (hp : p ≤ 18) (raw : Int) (hr : fits64 raw = true) :
+    fromStr64 p (10^p) (comma (10^p) raw) = .ok raw := by
+  rw [fromStr64_comma, fromStr64_toStr p hp raw hr]
+
+theorem fromString_comma128 (p : Nat) (raw : Int) (hr : fits128 raw = true) :
+    fromStr128 p (10^p) (comma (10^p) raw) = .ok raw := by
+  rw [fromStr128_comma, fromStr128_toStr p raw hr]
+
+/-- the `*WithSign` renderings are the plain ones with a leading '+' exactly for values ≥ 0 -/
+theorem withSign_forms (mult raw : Int) :
+    toStrSign mult raw = (if raw ≥ 0 then 43 :: toStr mult raw else toStr mult raw) ∧
+    commaSign mult raw = (if raw ≥ 0 then 43 :: comma mult raw else comma mult raw) := ⟨rfl, rfl⟩
+
+/-- parsing `StringWithSign()` / `CommaWithSign()` returns the value -/
+theorem fromString_withSign64 (p : Nat) (hp : p ≤ 18) (raw : Int) (hr : fits64 raw = true) :
+    fromStr64 p (10^p) (toStrSign (10^p) raw) = .ok raw ∧ fromStr64 p (10^p) (commaSign (10^p) raw) = .ok raw := by
+  unfold toStrSign commaSign
+  by_cases h : raw ≥ 0
+  · rw [if_pos h, if_pos h, fromStr64_commaPlus, fromStr64_plus p raw hr h, fromStr64_toStr p hp raw hr]
+    exact ⟨rfl, rfl⟩
+  · rw [if_neg h, if_neg h, fromStr64_comma, fromStr64_toStr p hp raw hr]
+    exact ⟨rfl, rfl⟩
+
+theorem fromString_withSign128 (p : Nat) (raw : Int) (hr : fits128 raw = true) :
+    fromStr128 p (10^p) (toStrSign (10^p) raw) = .ok raw ∧ fromStr128 p (10^p) (commaSign (10^p) raw) = .ok raw := by
+  unfold toStrSign commaSign
+  by_cases h : raw ≥ 0
+  · rw [if_pos h, if_pos h, fromStr128_commaPlus, fromStr128_plus p raw h, fromStr128_toStr p raw hr]
+    exact ⟨rfl, rfl⟩
+  · rw [if_neg h, if_neg h, fromStr128_comma, fromStr128_toStr p raw hr]
+    exact ⟨rfl, rfl⟩
+
+/-! ## the same for the configurations of the source -/
+
+/-- every rendering of every f64 value in every configuration D1 … D16 parses back to the identical value -/
+theorem roundtrip_configs64 : ∀ c ∈ Facts.fixedConfigs, ∀ raw : Int, fits64 raw = true →
+    fromStr64 c.1 c.2 (toStr c.2 raw) = .ok raw ∧ fromStr64 c.1 c.2 (toStrSign c.2 raw) = .ok raw ∧
+    fromStr64 c.1 c.2 (comma c.2 raw) = .ok raw ∧ fromStr64 c.1 c.2 (commaSign c.2 raw) = .ok raw ∧
+    unmarshal64 c.1 c.2 (toStr c.2 raw) = .ok raw ∧ unmarshal64 c.1 c.2 (34 :: (toStr c.2 raw ++ [34])) = .ok raw := by
+  intro c hc raw hr
+  obtain ⟨e, _, h16⟩ := configs_pow10 c hc
+  rw [e]
+  have hp : c.1 ≤ 18 := by omega
+  exact ⟨fromString_toString64 _ hp raw hr, (fromString_withSign64 _ hp raw hr).1, fromString_comma64 _ hp raw hr,
+    (fromString_withSign64 _ hp raw hr).2, unmarshal_toString64 _ hp raw hr, unmarshal_quoted64 _ hp raw hr⟩
+
+/-- every rendering of every f128 value in every configuration D1 … D16 parses back to the identical value -/
+theorem roundtrip_configs128 : ∀ c ∈ Facts.fixedConfigs, ∀ raw : Int, fits128 raw = true →
+    fromStr128 c.1 c.2 (toStr128 c.2 raw) = .ok raw ∧ fromStr128 c.1 c.2 (toStrSign c.2 raw) = .ok raw ∧
+    fromStr128 c.1 c.2 (comma c.2 raw) = .ok raw ∧ fromStr128 c.1 c.2 (commaSign c.2 raw) = .ok raw ∧
+    unmarshal128 c.1 c.2 (toStr c.2 raw) = .ok raw ∧ unmarshal128 c.1 c.2 (34 :: (toStr c.2 raw ++ [34])) = .ok raw := by
+  intro c hc raw hr
+  obtain ⟨e, _, _⟩ := configs_pow10 c hc
+  rw [toStr128_eq, e]
+  exact ⟨fromString_toString128 _ raw hr, (fromString_withSign128 _ raw hr).1, fromString_comma128 _ raw hr,
+    (fromString_withSign128 _ raw hr).2, unmarshal_toString128 _ raw hr, unmarshal_quoted128 _ raw hr⟩
+
+/-! ## Unquote -/
+
+/-- one pair of surrounding double quotes is stripped -/
+theorem unquote_quoted (s : Str) : unquote (34 :: (s ++ [34])) = s := FixedText.unquote_quoted s
+
+/-- anything not both starting and ending with '"' is left alone -/
+theorem unquote_bare (s : Str) (h : s.head? ≠ some 34 ∨ s.getLast? ≠ some 34) : unquote s = s :=
+  FixedText.unquote_bare s h
+
+/-- a single byte (a lone '"' included) is left alone — no slice out of range -/
+theorem unquote_short (s : Str) (h : s.length ≤ 1) : unquote s = s := FixedText.unquote_short s h
+
+/-! ## FromString never panics -/
+
+/-- the model is a total function on all byte strings (any places, any multiplier); every input yields an error, the
+    exponent branch, or a value inside the 64-bit range -/
+theorem fromString_total64 (p : Nat) (m : Int) (s : Str) :
+    fromStr64 p m s = .err ∨ fromStr64 p m s = .exp ∨ ∃ v, fromStr64 p m s = .ok v ∧ fits64 v = true :=
+  fromStr64_total p m s
+
+theorem fromString_total128 (p : Nat) (m : Int) (s : Str) :
+    fromStr128 p m s = .err ∨ fromStr128 p m s = .exp ∨ ∃ v, fromStr128 p m s = .ok v ∧ fits128 v = true :=
+  fromStr128_total p m s
+
+/-- the part outside the model (strconv.ParseFloat) is entered exactly by non-empty inputs containing 'e' or 'E' -/
+theorem fromString_exp_iff (p : Nat) (m : Int) (s : Str) :
+    fromStr64 p m s = .exp ↔ s ≠ [] ∧ hasExp (stripCommas s) = true := fromStr64_exp_iff p m s
+
+/-! ## FromString of a plain decimal literal
+
+A literal is `litText sg ip fo` = optional sign `sg`, integer digits `ip` (possibly none), optionally '.' and fraction
+digits (`fo = some fp`, possibly none), with at least one digit (`IsLiteral`; the code rejects a '+' that is not
+followed by an integer digit, e.g. "+.5", so that form is excluded).  Its value truncated toward zero to `p` places is
+the raw value `litVal p sg ip fo = ±(ip · 10^p + ⌊0.fp · 10^p⌋)`. -/
+
+/-- **f64: a plain decimal literal whose truncated value is representable parses to exactly that value** (never
+    rounded, never another number; leading zeros, "-0", "-00.5", missing integer part, fractions longer than `p`) -/
+theorem fromString_literal64 (p : Nat) (hp : p ≤ 18) (sg : Sign) (ip : Str) (fo : Option Str)
+    (hl : IsLiteral sg ip fo) (hfit : fits64 (litVal p sg ip fo) = true) :
+    fromStr64 p (10^p) (litText sg ip fo) = .ok (litVal p sg ip fo) :=
+  fromStr64_literal p hp sg ip fo hl hfit
+
+/-- **f128: the same** (no bound on `p`) -/
+theorem fromString_literal128 (p : Nat) (sg : Sign) (ip : Str) (fo : Option Str)
+    (hl : IsLiteral sg ip fo) (hfit : fits128 (litVal p sg ip fo) = true) :
+    fromStr128 p (10^p) (litText sg ip fo) = .ok (litVal p sg ip fo) :=
+  fromStr128_literal p sg ip fo hl hfit
+
+/-- thousands separators (anywhere, in particular where `Comma` puts them) do not change the result -/
+theorem fromString_literal_commas64 (p : Nat) (hp : p ≤ 18) (sg : Sign) (ip : Str) (fo : Option Str)
+    (hl : IsLiteral sg ip fo) (hfit : fits64 (litVal p sg ip fo) = true) (t : Str)
+    (ht : stripCommas t = litText sg ip fo) : fromStr64 p (10^p) t = .ok (litVal p sg ip fo) :=
+  fromStr64_literal_commas p hp sg ip fo hl hfit t ht
+
+theorem fromString_literal_commas128 (p : Nat) (sg : Sign) (ip : Str) (fo : Option Str)
+    (hl : IsLiteral sg ip fo) (hfit : fits128 (litVal p sg ip fo) = true) (t : Str)
+    (ht : stripCommas t = litText sg ip fo) : fromStr128 p (10^p) t = .ok (litVal p sg ip fo) :=
+  fromStr128_literal_commas p sg ip fo hl hfit t ht
+
+/-- the fraction read is ⌊0.fp · 10^p⌋: the first `p` digits, zero-padded (truncation, not rounding) -/
+theorem literal_fraction_truncates (p : Nat) (fp : Str) (h : ∀ c ∈ fp, isDigit c = true) :
+    parseDigits ((fp ++ List.replicate (p - fp.length) 48).take p) = parseDigits fp * 10^p / 10^fp.length :=
+  frac_take_spec p fp h
+
+/-- non-vacuity: "-00.57" is a literal; with one place its value is the raw value −5 (the input of the repaired
+    sign defect, and a truncation 0.57 ↦ 0.5) -/
+example : IsLiteral .minus [48, 48] (some [53, 55]) ∧ litText .minus [48, 48] (some [53, 55]) = [45, 48, 48, 46, 53, 55] ∧
+    litVal 1 .minus [48, 48] (some [53, 55]) = -5 := by
+  refine ⟨⟨by decide, ?_, Or.inl (by decide), by decide⟩, rfl, by decide⟩
+  intro fp h c hc
+  cases h
+  revert c; decide
+
+/-! ## As / CheckedAs, integer targets -/
+
+/-- f64: CheckedAs succeeds exactly when converting the result back gives the original, and then returns what As returns -/
+theorem checkedAs_int_iff64 (mult : Int) (t : Target) (raw n : Int) :
+    checkedAs64 mult t raw = some n ↔ (n = as64 mult t raw ∧ from64 mult n = raw) := by
+  unfold checkedAs64
+  simp only
+  split
+  · rename_i h
+    constructor
+    · intro h'; cases h'
+    · rintro ⟨rfl, h2⟩; exact absurd h2 h
+  · rename_i h
+    have h' : from64 mult (as64 mult t raw) = raw := by
+      by_cases hh : from64 mult (as64 mult t raw) = raw
+      · exact hh
+      · exact absurd hh h
+    constructor
+    · intro e; cases e; exact ⟨rfl, h'⟩
+    · rintro ⟨rfl, _⟩; rfl
+
+theorem checkedAs_int_iff128 (mult : Int) (t : Target) (raw n : Int) :
+    checkedAs128 mult t raw = some n ↔ (n = as128 mult t raw ∧ from128 mult t n = raw) := by
+  unfold checkedAs128
+  simp only
+  split
+  · rename_i h
+    constructor
+    · intro h'; cases h'
+    · rintro ⟨rfl, h2⟩; exact absurd h2 h
+  · rename_i h
+    have h' : from128 mult t (as128 mult t raw) = raw := by
+      by_cases hh : from128 mult t (as128 mult t raw) = raw
+      · exact hh
+      · exact absurd hh h
+    constructor
+    · intro e; cases e; exact ⟨rfl, h'⟩
+    · rintro ⟨rfl, _⟩; rfl
+
+/-- As returns the same value whenever CheckedAs succeeds -/
 theorem as_eq_checkedAs64 (mult : Int) (t : Target) (raw n : Int) (h : checkedAs64 mult t raw = some n) :
-    as64 mult t raw = n := by
-  unfold checkedAs64 at h
-  simp only at h
-  split at h
-  · cases h
-  · exact Option.some.inj h
+    as64 mult t raw = n := ((checkedAs_int_iff64 mult t raw n).mp h).1.symm
+
+theorem as_eq_checkedAs128 (mult : Int) (t : Target) (raw n : Int) (h : checkedAs128 mult t raw = some n) :
+    as128 mult t raw = n := ((checkedAs_int_iff128 mult t raw n).mp h).1.symm
+
+/-! ## non-vacuity -/
+example : fits64 (-(2^63)) = true ∧ fits128 (-(2^127)) = true := by decide
+example : (3, (1000 : Int)) ∈ Facts.fixedConfigs := by decide
 
 end C04
